@@ -27,6 +27,7 @@ import (
 // pair is a two-client world with a number of ledger channels between them.
 type pair struct {
 	restarting     [2]bool                       // C06 restart mode: the side's client is being replaced by a restored instance
+	sharedOpts     client.ProposalOpts           // C08: one options value re-used for several proposals (pn=2)
 	born           [2]time.Duration              // when the current instance of each side was created (0: at the start)
 	slowNext       map[string]time.Duration      // node name -> extra reaction time for its next decision
 	cancelOnEnable bool                          // the next pay cancels its context when its state is enabled
@@ -235,6 +236,18 @@ func (p *pair) open(step int, side int, st *kernel.Step) int {
 			agreement[a] = []channel.Bal{x, new(big.Int).Sub(tot, x)}
 		}
 		opts = append(opts, client.WithFundingAgreement(agreement))
+	}
+	if st.Int("pn") == 2 {
+		// the application keeps one options value that configures no nonce and
+		// passes it - and nothing else - to every proposal it builds (as the
+		// library's own test roles do with their app option): the library draws
+		// the proposer's nonce share itself, afresh for every proposal
+		if p.sharedOpts == nil {
+			p.sharedOpts = client.WithoutApp()
+		}
+		opts = []client.ProposalOpts{p.sharedOpts}
+		p.lastData = channel.NoData()
+		p.s.Count("probe.proposal_from_reused_options_value", 1)
 	}
 	cd := uint64(st.Int("challenge"))
 	if cd == 0 {
